@@ -123,7 +123,13 @@ func verifC04_Weighted() {
 	n := verifChoose("n", verifBound("maxServers")) + 1
 	servers := vMakeServers(n, true)
 	spec := &ServerPoolSpec{Servers: servers, LoadBalance: &LoadBalanceSpec{Policy: LoadBalancePolicyWeightedRandom}}
-	verifAssume(spec.Validate() == nil)
+	// static lists pass Validate (all servers weighted or none); lists reported by service
+	// discovery are not validated: any mix of zero and positive weights, in any order
+	if verifBool("serversFromDiscovery") {
+		verifCover("discovered-servers")
+	} else {
+		verifAssume(spec.Validate() == nil)
+	}
 	lb := NewLoadBalancer(spec.LoadBalance, servers)
 	total := 0
 	for _, s := range servers {
